@@ -448,7 +448,7 @@ class HTTPChannel(wasyncore.dispatcher):
         except ClientDisconnected:
             self.logger.info("Client disconnected while serving %s" % task.request.path)
             task.close_on_finish = True
-        except Exception:
+        except BaseException:
             self.logger.exception("Exception while serving %s" % task.request.path)
 
             if not task.wrote_header:
